@@ -111,3 +111,13 @@ Definition run_normpath (s : sexp) : sexp :=
   | L [A p; b] => match dbool b with Some b' => A (normalize_path p b') | None => bad_input end
   | _ => bad_input
   end.
+
+(* redirect lab (C07): (root path query) -> (canonical normalised location unquoted-path-of-location) *)
+From ClasticV Require Import Model.Redirect.
+Definition run_redirectlab (s : sexp) : sexp :=
+  match s with
+  | L [A root; A path; A query] =>
+      L [ebool (canonical path); A (normalize_path path true); A (location root path query);
+         A (unquote (quote_path (normalize_path path true)))]
+  | _ => bad_input
+  end.
